@@ -3,8 +3,8 @@ import os, sys, json, time, re, importlib, traceback, hashlib, multiprocessing
 from fractions import Fraction
 
 HERE = os.path.dirname(os.path.dirname(os.path.abspath(__file__)))
-EVID = os.path.join(HERE, "evidence")
-REPLAYS = os.path.join(HERE, "replays")
+EVID = os.environ.get("VERIF_EVIDENCE_DIR") or os.path.join(HERE, "evidence")
+REPLAYS = os.environ.get("VERIF_REPLAY_DIR") or os.path.join(HERE, "replays")
 
 STANDING_ASSUMPTIONS = {
     "A1": "machine arithmetic treated as mathematical: floats are reals with an explicit NaN flag (no rounding, overflow, inf); ints unbounded",
